@@ -71,8 +71,9 @@ def txLoad (ns : List BulkNode) (es : List BulkEdge) : List TxOp :=
   es.flatMap (fun e => TxOp.edge (bulkIid ns e.src) e.rel (bulkIid ns e.dst) ::
     e.props.map (fun kv => TxOp.eprop (bulkIid ns e.src) e.rel (bulkIid ns e.dst) kv.1 kv.2))
 
-/-- trigger of the one known difference: two parallel bulk relationships carry the same property key
-    (the whole-map read of the store returns the OLDEST duplicate, C05-whole-map-read-returns-oldest) -/
+/-- trigger of the one difference of the pinned tree: two parallel bulk relationships carry the same
+    property key (the whole-map read of the store returned the OLDEST duplicate; fixed together with
+    C05-whole-map-read-returns-oldest-sunk-value) -/
 def bulkDupEdgeKey (es : List BulkEdge) : Bool :=
   let keys := es.flatMap (fun e => e.props.map (fun kv => (e.src, e.rel, e.dst, kv.1)))
   !keys.Nodup
